@@ -174,7 +174,18 @@ fn tj_case(s: &mut Session, rng: &mut Rng, style: u64, big: bool) {
 pub fn generate(s: &mut Session, tier: &str, rng: &mut Rng) {
     // a target address spread over several chunks (third-party senders), every cut, several read patterns
     match crate::craft::Crafter::new() {
-        Some(mut cr) => crate::c03::ss_legacy_split_address(s, &mut cr, rng, tier == "thorough"),
+        Some(mut cr) => {
+            crate::c03::ss_legacy_split_address(s, &mut cr, rng, tier == "thorough");
+            // a 2022 request without payload: the connect comes with the header, not with the next chunk (never stalls)
+            for cipher in CIPHERS {
+                if is2022(cipher) {
+                    crate::c03::ss2022_empty_first_payload(s, &mut cr, rng, cipher, false);
+                    if eih(cipher) {
+                        crate::c03::ss2022_empty_first_payload(s, &mut cr, rng, cipher, true);
+                    }
+                }
+            }
+        }
         None => {
             s.begin_case("no-driver");
             s.oracle_fail("craft", "the Lean driver could not be started for Spec-side building");
